@@ -23,15 +23,19 @@ def absR (x : R) : R := if Cmp.lt x zero then -x else x
 /-- `a <= b` as the negation of `b < a` (no NaNs in the model's domain) -/
 def le (a b : R) : Bool := !(Cmp.lt b a)
 
-/-- `np.argmin`: index of the FIRST minimum.  `argminAux rest i bi bv`: `i` = index of the head of `rest`,
-    `(bi, bv)` = best so far. -/
-def argminAux : List R → Nat → Nat → R → Nat
-  | [], _, bi, _ => bi
-  | x :: xs, i, bi, bv => if Cmp.lt x bv then argminAux xs (i + 1) i x else argminAux xs (i + 1) bi bv
+/-- `np.argmin` with the minimum itself: index of the FIRST minimum.  For `x :: xs`: if the minimum of `xs` is strictly
+    smaller than `x` it stays the minimum (one place further), otherwise `x` (the earlier element) wins. -/
+def argminPair : List R → Option (Nat × R)
+  | [] => none
+  | x :: xs =>
+    match argminPair xs with
+    | none => some (0, x)
+    | some (j, v) => if Cmp.lt v x then some (j + 1, v) else some (0, x)
 
-def argmin : List R → Nat
-  | [] => 0
-  | x :: xs => argminAux xs 1 0 x
+def argmin (xs : List R) : Nat :=
+  match argminPair xs with
+  | none => 0
+  | some (j, _) => j
 
 /-- `np.linspace(start, stop, num)` (endpoint=True): `arange(num)*step + start`, last element forced to `stop` -/
 def linspace (start stop : R) (num : Nat) : List R :=
